@@ -209,6 +209,7 @@ PROPS = {
             {"name": "bus", "run": "TestBusHistories", "kind": "rapid", "checks": {Q: 8000, T: 1000000}, "shards": {Q: 4, T: 16}},
             {"name": "corefirst", "run": "TestCoreFirst", "kind": "rapid", "checks": {Q: 4000, T: 600000}, "shards": {Q: 4, T: 16}},
             {"name": "multicore", "run": "TestSeveralCoreHandlers", "kind": "rapid", "checks": {Q: 3000, T: 400000}, "shards": {Q: 4, T: 16}},
+            {"name": "independent", "run": "TestHandlersRunIndependently", "kind": "rapid", "checks": {Q: 2000, T: 200000}, "shards": {Q: 2, T: 16}},
             {"name": "oracle", "run": "TestOracle", "kind": "plain"},
             {"name": "coreconcurrent", "run": "TestCoreFirstConcurrent", "kind": "plain", "shards": {Q: 2, T: 8}, "env": {"VERIF_ROUNDS": {Q: 300, T: 3000}}},
         ],
